@@ -98,6 +98,8 @@ def stage_coq():
         return {"ok": False, "translator_failed": True, "log": out, "theorems": {}, "failed": ["translator"]}
     for f in ("TablesGen.v", "ConstsGen.v"):
         write_if_changed(os.path.join(COQ, f), open(os.path.join(tmp, f)).read())
+    # the committed Coq reference must be what the committed text reference says
+    rc_ref, _, _ = sh([sys.executable, os.path.join(ROOT, "tools/mk_ucdref.py"), "--check"])
     key = sha([os.path.join(COQ, f) for f in os.listdir(COQ) if f.endswith(".v")] +
               [os.path.join(COQ, d, f) for d in ("Proofs", "Props") if os.path.isdir(os.path.join(COQ, d))
                for f in os.listdir(os.path.join(COQ, d)) if f.endswith(".v")] + [os.path.join(COQ, "_CoqProject")])
@@ -126,6 +128,7 @@ def stage_coq():
     theorems = {}
     for m in re.finditer(r"ASSUMPTIONS-OF (\S+)\n(.*?)END-ASSUMPTIONS", out, re.S):
         theorems[m.group(1)] = m.group(2).strip()
+    if rc_ref != 0: bad.append("UcdRef.v differs from ref/*.txt (tools/mk_ucdref.py --check)")
     st = {"key": key, "ok": rc == 0 and not bad, "rc": rc, "failed": sorted(set(failed)), "hygiene": bad,
           "theorems": theorems, "wall_s": dt, "log_tail": out[-6000:]}
     json.dump(st, open(status_path, "w"), indent=1)
